@@ -115,6 +115,10 @@ class FA:
         out.sort(key=lambda t: (getattr(t[1], "lineno", 0), getattr(t[1], "col_offset", 0)))
         return out
 
+    def returns(self) -> List[Tuple[int, ast.Return]]:
+        """(node id, return statement) for every return of the function itself."""
+        return [(n.id, n.ast) for n in self.nodes() if n.kind == "stmt" and isinstance(n.ast, ast.Return)]
+
     def find_calls(self, name: str) -> List[Tuple[int, ast.Call]]:
         """Calls whose dotted callee equals `name` (e.g. 'self.state.increment')."""
         return self.find_expr(lambda e: isinstance(e, ast.Call) and call_name(e) == name)
@@ -302,6 +306,42 @@ def ifs_on(root, cond):
             if a is not None:
                 out.append((n, a[0], a[1]))
     return out
+
+
+def literal_tests(facts, is_selector):
+    """(literals the selector is known to equal, literals it is known to differ from) under `facts`;
+    understands ==, !=, in (...), not in (...) in either polarity."""
+    pos, neg = set(), set()
+    for e, t in facts:
+        if not (isinstance(e, ast.Compare) and len(e.ops) == 1):
+            continue
+        l, r, op = e.left, e.comparators[0], e.ops[0]
+        if isinstance(op, (ast.Eq, ast.NotEq)):
+            if isinstance(l, ast.Constant):
+                l, r = r, l
+            if isinstance(r, ast.Constant) and is_selector(l):
+                (pos if isinstance(op, ast.Eq) == t else neg).add(r.value)
+        elif isinstance(op, (ast.In, ast.NotIn)) and is_selector(l) and isinstance(r, (ast.Tuple, ast.List, ast.Set)) and all(isinstance(x, ast.Constant) for x in r.elts):
+            vals = {x.value for x in r.elts}
+            if isinstance(op, ast.In) == t:
+                if len(vals) == 1:
+                    pos |= vals
+            else:
+                neg |= vals
+    return pos, neg
+
+
+def mode_under(facts, is_selector, universe=None):
+    """The single selector value under which a node runs: a positive literal test, or - given the
+    universe of legal values - the one value all negative tests leave over. None if undetermined."""
+    pos, neg = literal_tests(facts, is_selector)
+    if len(pos) == 1:
+        return next(iter(pos))
+    if not pos and universe is not None:
+        left = set(universe) - neg
+        if len(left) == 1 and neg:
+            return next(iter(left))
+    return None
 
 
 def has_fact(facts, left: str, op: str, right: str) -> bool:
